@@ -1,6 +1,26 @@
 (** C04 - Annotations keep denoting the same residues through every view.
-    Only theorem statements; every proof is [exact <lemma>]. *)
-From CG3 Require Import Lib.PyZ Lib.Val Lib.PySlice Model.View Spec.ViewSpec Model.Annot Spec.AnnotSpec Proofs.AnnotProofs.
+    Only theorem statements; every proof is [exact <lemma>].
+
+    Vocabulary.  Model/Annot.v (transcribed from Sequence.get_features /
+    make_feature / add_feature / _mapped, Feature.get_slice, _spans_from_locations,
+    FeatureMap.nucleic_reversed): [feat] = a db record (absolute plus-strand spans +
+    strand), [get_features], [feature_on_view] (one db record -> the Feature
+    bound to a view: [fv_minus] strand relative to the view, [fv_map] its map),
+    [get_slice_str] / [get_slice] (the string of feature.get_slice()),
+    [slice_coords] (parent coordinates of that slice), [add_feature];
+    [fixes] selects the pinned code or the proposed repairs ([pinned], [all_fixed]).
+    Model/View.v is the C01 view kernel ([view], [getitem_slice], [parent_start] ...).
+    Spec/AnnotSpec.v: [denoted p off lo hi f] = the parent residues at the
+    feature's absolute positions that lie in the displayed segment [lo, hi),
+    read on the feature's strand; [overlaps] / [inside] = interval tests;
+    [spans_ok] / [feat_ok] = sorted, disjoint, non-empty spans.
+    Proofs/AnnotProofs.v: [contig v] = well-formed view with |step| = 1 and
+    offset >= 0; [unit_op] = slice with step None/1 or rc; [abs_window],
+    [box_matches], [abs_of_view], [view_spans]. *)
+From CG3 Require Import Lib.PyZ Lib.Val Lib.PySlice Model.View Spec.ViewSpec Proofs.ViewSeqProofs.
+From CG3 Require Import Model.Annot Model.AnnotRun Spec.AnnotSpec Proofs.AnnotProofs.
+
+(** * the db side *)
 
 (** the 4-clause SQL test is interval overlap, the 1-clause test containment *)
 Theorem db_partial_is_overlap : forall fs fe qs qe, fs < fe -> qs < qe ->
@@ -11,9 +31,138 @@ Theorem db_within_is_inside : forall fs fe qs qe,
   db_within fs fe qs qe = true <-> inside fs fe qs qe.
 Proof. exact db_within_inside. Qed.
 
-(** pinned tree: a partial-match query raises for a well-formed feature that
-    is only partly inside the view (finding C04-F1) *)
+(** * coordinates *)
+
+(** absolute -> view-relative conversion, flipped to the plus orientation on a
+    reversed view ([relative_position] + [len(self) - spans]), is a plain shift
+    by the absolute coordinate of the displayed segment's left end *)
+Theorem relative_coordinate_is_shift : forall v x, contig v -> 0 < vlen v -> 0 <= x ->
+  rel_coord v x = Ok (x - parent_start v).
+Proof. exact rel_coord_contig. Qed.
+
+(** a contiguous view displays exactly [parent_start, parent_stop) *)
+Theorem displayed_segment_length : forall v, contig v -> vlen v = parent_stop v - parent_start v.
+Proof. exact vlen_contig. Qed.
+
+(** the query window [s, e) of displayed indices becomes the absolute segment
+    holding exactly those residues (either orientation, any offset) *)
+Theorem query_window_spec : forall v ws we, contig v -> 0 < vlen v ->
+  let s := bound_or ws 0 in let e := bound_or we (vlen v) in
+  0 <= s < e -> e <= vlen v ->
+  query_window v ws we = Ok (abs_window v s e).
+Proof. exact query_window_contig. Qed.
+
+(** * HEADLINE 1: which features a query on a view returns *)
+
+(** for every db, every contiguous view and every proper window: record [k] is
+    returned iff its bounding box overlaps (allow_partial) / lies inside (not
+    allow_partial) the absolute segment the window displays *)
+Theorem query_membership_spec : forall fx v db ws we partial l, contig v -> 0 < vlen v ->
+  let s := bound_or ws 0 in let e := bound_or we (vlen v) in
+  0 <= s < e -> e <= vlen v -> Forall feat_ok db ->
+  get_features fx v db ws we partial = Ok l ->
+  forall k, In k (map fst l) <->
+    exists f, 0 <= k /\ nth_error db (Z.to_nat k) = Some f /\ box_matches partial (abs_window v s e) f.
+Proof. exact query_membership_lemma. Qed.
+
+(** * HEADLINE 2: what the slice of a returned feature is *)
+
+(** for every parent string, annotation offset, contiguous view (forward or
+    reversed), every multi-span feature on either strand, pinned or repaired
+    code: whenever get_features hands back the Feature, its strand relative to
+    the view is the db strand xor the view's orientation, and
+    str(feature.get_slice()) is exactly the parent residues the feature denotes,
+    restricted to the segment the view displays, read on the feature's strand *)
+Theorem feature_slice_spec : forall fx v p f fv,
+  contig v -> 0 < vlen v -> zlen p = seq_len v -> spans_ok 0 (f_spans f) ->
+  feature_on_view fx v f = Ok fv ->
+  fv_minus fv = xorb (f_minus f) (is_reversed v) /\
+  get_slice_str v p fv = Ok (denoted p (offset v) (parent_start v) (parent_stop v) f).
+Proof. exact feature_slice_lemma. Qed.
+
+(** restricting the position list by membership = intersecting every span with the segment *)
+Theorem restricted_positions_spec : forall B n sp,
+  map (fun x => x + B) (rpositions n (shift_spans B sp)) = filter (in_seg B (B + n)) (positions sp).
+Proof. exact restricted_positions. Qed.
+
+(** the same over histories: any chain of unit-step slices (any optional /
+    negative / out-of-range bounds) and reverse complements of a sequence with
+    any annotation offset ends in a view for which the statement holds *)
+Theorem history_irrelevant : forall fx p off ops v0 v f fv,
+  0 <= off -> mk_view (zlen p) None None None off = Ok v0 ->
+  Forall unit_op ops -> fold_left apply_vop ops (Ok v0) = Ok v -> 0 < vlen v ->
+  spans_ok 0 (f_spans f) -> feature_on_view fx v f = Ok fv ->
+  fv_minus fv = xorb (f_minus f) (is_reversed v) /\
+  get_slice_str v p fv = Ok (denoted p off (parent_start v) (parent_stop v) f).
+Proof. exact history_irrelevant_lemma. Qed.
+
+(** old-style Feature.get_slice / seq[feature] is that plain reading; so is
+    the new-style one once [_mapped] is repaired *)
+Theorem get_slice_old : forall fx v p fv, get_slice fx OldSeq v p fv = get_slice_str v p fv.
+Proof. exact get_slice_old_lemma. Qed.
+
+Theorem get_slice_new_repaired : forall fx v p fv, fx_mapped fx = true ->
+  get_slice fx NewSeq v p fv = get_slice_str v p fv.
+Proof. exact get_slice_new_fixed_lemma. Qed.
+
+(** * "never raise merely because a feature is only partly inside the view" *)
+
+(** with the boundary repair ([>=] / [<=] in make_feature) no well-formed
+    feature makes a query on a contiguous view raise ... *)
+Theorem fixed_never_raises : forall fx v f, fx_bound fx = true -> contig v -> 0 < vlen v -> feat_ok f ->
+  exists fv, feature_on_view fx v f = Ok fv.
+Proof. exact fixed_never_raises_lemma. Qed.
+
+(** ... the pinned code does: CTAGAGT, rc()[4:5].rc(), feature [(0,2),(3,4),(6,7)],
+    allow_partial=True raises ValueError (finding C04-F1) *)
 Theorem make_feature_raises_refuted :
-  exists v f, WF v /\ Z.abs (step v) = 1 /\ feat_ok f /\
+  exists v f, contig v /\ 0 < vlen v /\ feat_ok f /\
     get_features pinned v [f] None None true = Err E_Value.
 Proof. exact make_feature_raises_refuted_lemma. Qed.
+
+(** pinned new-style: feature.get_slice() of a one-span feature on a sequence
+    with an annotation offset raises ValueError although the plain reading is
+    the denoted residues (finding C04-F2) *)
+Theorem new_slice_offset_refuted :
+  exists v p f fv, contig v /\ 0 < vlen v /\ zlen p = seq_len v /\ feat_ok f /\
+    feature_on_view pinned v f = Ok fv /\
+    get_slice pinned NewSeq v p fv = Err E_Value /\
+    get_slice_str v p fv = Ok (denoted p (offset v) (parent_start v) (parent_stop v) f).
+Proof. exact new_slice_offset_refuted_lemma. Qed.
+
+(** pinned: the slice of a feature lying inside the view reports parent
+    coordinates that are not the feature's (old-style: relative to the view;
+    new-style: view start counted twice); the repaired model reports the
+    feature's own coordinates (finding C04-F3) *)
+Theorem slice_coords_refuted :
+  exists v p f fv, contig v /\ zlen p = seq_len v /\ f_spans f = [(4, 8)] /\ f_minus f = false /\
+    parent_start v <= 4 /\ 8 <= parent_stop v /\
+    feature_on_view pinned v f = Ok fv /\
+    slice_coords pinned OldSeq v p fv = Ok (Some (2, 6, 1)) /\
+    slice_coords pinned NewSeq v p fv = Ok (Some (6, 10, 1)) /\
+    slice_coords all_fixed OldSeq v p fv = Ok (Some (4, 8, 1)) /\
+    slice_coords all_fixed NewSeq v p fv = Ok (Some (4, 8, 1)).
+Proof. exact slice_coords_refuted_lemma. Qed.
+
+(** * add_feature through a view *)
+
+(** repaired add_feature: the record stored in the db carries the absolute
+    plus-strand coordinates of the residues displayed at the given view
+    coordinates (strand flipped on a reversed view), and the Feature handed
+    back is built from exactly that record *)
+Theorem add_feature_coords : forall fx v spans minus, fx_add fx = true -> contig v -> 0 < vlen v ->
+  view_spans (vlen v) spans ->
+  add_feature fx v spans minus =
+    Ok (mkF (abs_of_view v spans) (xorb minus (is_reversed v)),
+        shift_spans (parent_start v) (abs_of_view v spans), xorb minus (is_reversed v)).
+Proof. exact add_feature_coords_lemma. Qed.
+
+(** pinned add_feature stores the view coordinates unchanged: the record does
+    not denote the residues pointed at, and a query on the very view the
+    feature was added to does not return it (finding C04-F4) *)
+Theorem add_feature_refuted :
+  exists v spans minus rec sp m, contig v /\ 0 < vlen v /\ view_spans (vlen v) spans /\
+    add_feature pinned v spans minus = Ok (rec, sp, m) /\
+    f_spans rec <> abs_of_view v spans /\
+    get_features pinned v [rec] None None true = Ok [].
+Proof. exact add_feature_refuted_lemma. Qed.
